@@ -46,7 +46,10 @@ RULE = ('program = class (LockedMachine / LockedHierarchicalMachine), machine_co
         'stale trigger (leaves an empty defaultdict entry) -> add_model(m again, alone / after a registered model / twice / '
         'with a new model); then two or more threads send events to m; everything outside the stale call itself must agree '
         'with the model and satisfy the oracle). %d sampled schedules per program '
-        '(random bursts, then two completion passes); thorough tier adds every maximal schedule (no blocked attempts) of '
+        '(random bursts, then two completion passes); in 20%% of the std/setup programs context managers misbehave for chosen '
+        'top-level calls: the __enter__ of a machine or model context (first / middle / last position, also one the call never '
+        'enters) refuses = raises instead of acquiring, or its __exit__ raises after releasing (expected: everything entered '
+        'so far is released in reverse order, nothing of the call is processed, the call raises, other threads get through); thorough tier adds every maximal schedule (no blocked attempts) of '
         'small programs enumerated by the model. Compared per schedule: acquire/release/blocked log of the instrumented '
         'contexts, callback segments (thread, call, slot, model, state seen), result of every call (nested too), final model '
         'states / machine.models / states / transitions / model_context_map, all-done flag, serial-equivalence flag, '
@@ -65,6 +68,8 @@ ASSUMPTIONS = [
     'C06_contexts_held speaks about top-level calls (nested events on another model: candidate KF-C06-2) and about '
     'the context list read when the call starts (an event racing with remove_model + add_model(other contexts) of its '
     'model is processed under the old contexts: candidate KF-C06-4, only reachable in the removed stream)',
+    'a refusing __enter__ raises at once (it does not wait for the context) and leaves the context untouched; a raising '
+    '__exit__ has released the context before it raises',
     'add_model / remove_model in generated programs do not raise (valid initial state; remove_model only of models '
     'that no other thread removes, except in the removed stream)',
     'the controller declares a thread stuck if it does not reach its next yield point within %.0f s (a whole case: %.0f s); '
@@ -72,7 +77,7 @@ ASSUMPTIONS = [
 ]
 THEOREMS = ['C06_invariant', 'C06_mutex', 'C06_serial', 'C06_serial_in_progress', 'C06_same_calls', 'C06_reentrant',
             'C06_reentrant_never_blocked', 'C06_entry_reads_configuration', 'C06_contexts_fixed', 'C06_contexts_held',
-            'C06_contexts_order', 'C06_contexts_released', 'C06_progress', 'C06_macro_runs_are_schedules', 'C06_example',
+            'C06_contexts_order', 'C06_contexts_released', 'C06_progress', 'C06_macro_runs_are_schedules', 'C06_example', 'C06_refusal_example',
             'C06_contexts_held_hier_refuted', 'C06_contexts_held_nested_refuted', 'C06_mutex_unregistered_refuted',
             'C06_contexts_stale_refuted']
 THEOREM_OF_DIFF = 'corr_C06: Lock.step (macro steps) = controlled run of the real locked machine (Props/C06.v)'
@@ -89,7 +94,8 @@ def enc(case):
              [[m, s, bool(r), list(cx)] for m, s, r, cx in case['models']]],
             [[c[0], c[1], c[2], c[3], c[4], [list(x) for x in c[5]], list(c[6]), list(c[7])] for c in case['calls']],
             [list(p) for p in case['progs']],
-            list(case['sched'])]
+            list(case['sched']),
+            [list(f) for f in case.get('fails', [])]]
 
 
 # ------------------------------------------------------------------ generation
@@ -246,8 +252,22 @@ def gen_program(rng, p):
             lst = [victim, victim]
         setup.append(spec_new(5, b=rng.randrange(3), ms=lst, mc=rng.choice([[], [3], [5], [4, 3]]))[0])
         progs.append(setup)
+    fails = []
+    if stream in ('std', 'setup') and rng.random() < 0.2:
+        # context managers are user code: some __enter__ refuses / some __exit__ raises, for chosen top-level calls
+        tops = [c for pr in (progs[:nt] if stream == 'setup' else progs) for c in pr]
+        for _ in range(rng.choice([1, 1, 2])):
+            cid = rng.choice(tops)
+            spec = calls[cid - 1]
+            pool = list(mctx)
+            if spec[1] == 0:
+                pool += [c for m, _, _, cx in models if m == spec[2] for c in cx]
+            if rng.random() < 0.25:
+                pool += [3, 4, 5]                                  # possibly a context this call never enters
+            if pool and not any(f[0] == cid for f in fails):
+                fails.append([cid, rng.choice(pool), 1 if rng.random() < 0.7 else 2])
     return dict(cls=cls, mctx=mctx, models=models, states=[0, 1, 2], trans=trans, calls=calls, progs=progs,
-                sched=[], mode=0, stream=stream, stale_calls=stale)
+                sched=[], mode=0, stream=stream, stale_calls=stale, fails=fails)
 
 
 def completion_suffix(nt, k=70):
@@ -336,6 +356,7 @@ class Worker(object):
         self.go = threading.Semaphore(0)
         self.arrived = threading.Semaphore(0)
         self.at = None
+        self.cur_top = None
         self.done = False
         self.thread = threading.Thread(target=self.main, name='c06-w%d' % tid)
         self.thread.daemon = True
@@ -356,6 +377,7 @@ class Worker(object):
         try:
             for cid in self.prog:
                 self.yield_(('call', cid))
+                self.cur_top = cid
                 self.run.do_call(self, cid)
         except Abort:
             pass
@@ -367,8 +389,17 @@ class Worker(object):
         self.arrived.release()
 
 
+class CtxRefused(Exception):
+    """raised by an instrumented context's __enter__ that refuses the caller"""
+
+
+class CtxExitError(Exception):
+    """raised by an instrumented context's __exit__ (after it released)"""
+
+
 class Ctx(object):
-    """instrumented, non-re-entrant lock supplied as machine_context / model_context"""
+    """instrumented, non-re-entrant lock supplied as machine_context / model_context; for chosen (top-level call,
+    context) pairs its __enter__ refuses (raises instead of acquiring) or its __exit__ raises after releasing"""
 
     def __init__(self, run, cid):
         self.run, self.cid, self.owner = run, cid, None
@@ -377,11 +408,16 @@ class Ctx(object):
         run = self.run
         w = run.by_ident.get(threading.get_ident())
         if w is None or run.free:           # construction in the main thread / serial reference run
+            if run.fails.get((run.free_cid, self.cid)) == 1:
+                raise CtxRefused()
             if self.owner is not None:
                 raise RuntimeError('context %d busy outside the scheduled run' % self.cid)
             self.owner = 'x'
             return self
         w.yield_(('enter', self.cid))
+        if run.fails.get((w.cur_top, self.cid)) == 1 and not run.abort:
+            run.log.append([5, w.tid, self.cid])
+            raise CtxRefused()
         while True:
             if self.owner is None or run.abort:
                 self.owner = w.tid
@@ -395,10 +431,14 @@ class Ctx(object):
         w = run.by_ident.get(threading.get_ident())
         if w is None or run.free:
             self.owner = None
+            if run.fails.get((run.free_cid, self.cid)) == 2:
+                raise CtxExitError()
             return False
         w.yield_(('exit', self.cid))
         self.owner = None
         run.log.append([1, w.tid, self.cid])
+        if run.fails.get((w.cur_top, self.cid)) == 2 and not run.abort:
+            raise CtxExitError()
         return False
 
 
@@ -412,6 +452,10 @@ def _res(f):
         return [0, 1 if r is True else (0 if r is False else (2 if r is None else 7))]
     except Abort:
         raise
+    except CtxRefused:
+        return [1, 5]
+    except CtxExitError:
+        return [1, 6]
     except BaseException as e:  # noqa
         k = flat.classify_exc(e)
         return [1, k[0] if k[0] in (2, 3) else 9]
@@ -425,6 +469,8 @@ class Run(object):
         self.log = []
         self.errors = []
         self.by_ident = {}
+        self.fails = {(f[0], f[1]): f[2] for f in case.get('fails', [])}
+        self.free_cid = None
         self.stuck = 0
         self.specs = {c[0]: c for c in case['calls']}
         self.ctxs = {}
@@ -573,6 +619,7 @@ def serial_reference(case, order):
     per = []
     for cid in order:
         start = len(run.log)
+        run.free_cid = cid
         r = run.do_call(None, cid)
         items = [[x[3], x[4], x[5]] if x[0] == 2 else [9, x[2], x[3]] for x in run.log[start:-1]]
         per.append([cid, r, items])
@@ -702,10 +749,21 @@ def oracle_clauses(case, obs):
     history = {m: [list(v)] for m, v in cfgmap.items()}     # every model_context a model ever had
     cur = None
     span, snapshot, held = [], {}, []
+    free_refusal = {}
     for x in log:
         if x[0] == 3:
             continue
         t = x[1]
+        if x[0] == 5 and t != cur:
+            # the FIRST context of a call refuses: the thread holds nothing and waits for nothing, so this may happen
+            # while another thread is inside; the call must just raise
+            free_refusal[t] = x[2]
+            continue
+        if t in free_refusal:
+            c_ = free_refusal.pop(t)
+            if not (x[0] == 4 and x[3] == [1, 5] and x[2] in top and (not mach or mach[0] == c_)):
+                bad.append('thread %d after the refusal of its first context %r: %r' % (t, c_, x))
+            continue
         if cur is None:
             cur = t
             span, held = [], []
@@ -738,7 +796,17 @@ def oracle_clauses(case, obs):
                     continue        # the model is not registered: the property configures nothing to compare with
             acq = [y[2] for y in span if y[0] == 0]
             rel = [y[2] for y in span if y[0] == 1]
-            kinds = [y[0] for y in span[:-1]]
+            refused = [y[2] for y in span if y[0] == 5]
+            if refused:
+                # a context's __enter__ refused: what was entered before it is released in reverse order, nothing
+                # of the call is processed, the call raises
+                k = want.index(refused[0]) if refused[0] in want else -1
+                if not (k >= 0 and acq == want[:k] and rel == acq[::-1] and not any(y[0] == 2 for y in span)
+                        and x[3] == [1, 5]):
+                    bad.append('after the refusing __enter__ of context %r in call %d: acquired %r released %r '
+                               'result %r (configured %r)' % (refused[0], x[2], acq, rel, x[3], want))
+                continue
+            kinds = [y[0] for y in span[:-1] if y[0] != 5]
             first_item = kinds.index(2) if 2 in kinds else len(kinds)
             last_item = len(kinds) - 1 - kinds[::-1].index(2) if 2 in kinds else -1
             shape_ok = all(k == 0 for k in kinds[:min(first_item, len(acq))]) and \
@@ -858,6 +926,10 @@ def stats(case, obs, dist):
         log = obs[1][0]
         if any(x[0] == 3 for x in log):
             inc('schedules_with_blocked_attempt')
+        if any(x[0] == 5 for x in log):
+            inc('schedules_with_a_refusing_context_enter')
+        if any(x[0] == 4 and x[3] == [1, 6] for x in log):
+            inc('schedules_with_a_raising_context_exit')
         top = set(c for p in case['progs'] for c in p)
         if any(x[0] == 4 and x[2] not in top for x in log):
             inc('schedules_with_nested_call')
